@@ -35,11 +35,11 @@ fn token_payloads(cx: &mut Ctx) {
         Err(e) => return cx.anchor_missing(rule, &e),
     };
     let Some(en) = t.enum_named("Tok") else { return cx.anchor_missing(rule, "enum Tok") };
-    let allowed: std::collections::BTreeMap<&str, &str> = [("Name", "{name:String,}"), ("Int", "{value:BigInt,}"), ("Float", "{value:f64,}"), ("Complex", "{real:f64,imag:f64,}"), ("String", "{value:String,kind:StringKind,triple_quoted:bool,}"), ("Comment", "(String)")].into_iter().collect();
+    let allowed: std::collections::BTreeMap<&str, &str> = [("Name", "{name:String}"), ("Int", "{value:BigInt}"), ("Float", "{value:f64}"), ("Complex", "{real:f64,imag:f64}"), ("String", "{value:String,kind:StringKind,triple_quoted:bool}"), ("Comment", "(String)")].into_iter().collect();
     for v in &en.variants {
         let name = v.ident.to_string();
         let payload = match &v.fields {
-            syn::Fields::Named(n) => format!("{{{}}}", n.named.iter().map(|f| format!("{}:{},", f.ident.as_ref().unwrap(), sm::tsc(&f.ty))).collect::<String>()),
+            syn::Fields::Named(n) => format!("{{{}}}", n.named.iter().map(|f| format!("{}:{}", f.ident.as_ref().unwrap(), sm::tsc(&f.ty))).collect::<Vec<_>>().join(",")),
             syn::Fields::Unnamed(u) => format!("({})", u.unnamed.iter().map(|f| sm::tsc(&f.ty)).collect::<Vec<_>>().join(",")),
             syn::Fields::Unit => String::new(),
         };
